@@ -100,7 +100,8 @@ def prepare(cfg):
     FT.S_cook = st['S_cook']
     STATE['tpls'] = {}
     for name, text in DET_TEMPLATES.items():
-        STATE['tpls'][name] = (PageTemplate(text), PageTemplate(text))
+        opts = DET_OPTIONS.get(name, {})
+        STATE['tpls'][name] = (PageTemplate(text, **opts), PageTemplate(text, **opts))
 
 
 def _res(ok):
@@ -309,6 +310,23 @@ DET_TEMPLATES = {
 }
 
 
+DET_TEMPLATES['render-keywords'] = ('<div i18n:domain="d"><p i18n:translate="">Hello</p><img alt="Logo" i18n:attributes="alt" />'
+                                    '${msg}|${v}</div>')
+# options under which render() builds per-call wrappers around its keyword arguments
+DET_OPTIONS = {'render-keywords': {'encoding': 'utf-8'}}
+
+
+class _Msg:
+    def __str__(self):
+        return 'm'
+
+
+def _translator(k):
+    def translate(msgid, domain=None, mapping=None, context=None, target_language=None, default=None):
+        return 'T%d(%s|%s|%s)' % (k, domain, target_language, msgid if isinstance(msgid, str) else 'obj')
+    return translate
+
+
 def determinism(v: int, n: int, c: bool, v2: int, n2: int, c2: bool) -> bool:
     """
     pre: 0 <= n < 3 and 0 <= n2 < 3 and -2 <= v <= 2 and -2 <= v2 <= 2
@@ -318,6 +336,9 @@ def determinism(v: int, n: int, c: bool, v2: int, n2: int, c2: bool) -> bool:
     ta, tb = STATE['tpls'][name]
 
     def args(v, n, c):
+        if name == 'render-keywords':
+            # the translation function, the target language and the encoding are arguments of each call
+            return dict(v=v, msg=_Msg(), translate=_translator(pick3(n)), target_language='fr' if c else None)
         return dict(v=v, n=pick3(n), c=c, lst=[1], dct={'a': 1})
     # repeated calls on one instance, and a separately compiled instance
     r1 = ta.render(**args(v, n, c))
